@@ -61,7 +61,7 @@ def rule_view_defs(ctx):
     efd = A.get_fn(ctx.files, UTILS, "State::enabled_fields_data")
     t = A.fn_text(efd)
     ctx.instance("enabled_fields_data:members")
-    if "let members:Vec::<_>=field_idents.iter().map(|ident|quote!(self.#ident)).collect()" not in t.replace(" ", "") and "field_idents.iter().map(|ident|quote!(self.#ident))" not in t.replace(" ", ""):
+    if "field_idents.iter().map(|ident|quote!(self.#ident)).collect()" not in t:
         ctx.report("view:members", ctx.where(efd.file, efd.node), "`members` are no longer `self.#ident` for each enabled field identifier", {"text": t[:300]})
     asf = A.get_fn(ctx.files, UTILS, "State::assert_single_enabled_field")
     t = A.fn_text(asf)
